@@ -84,6 +84,15 @@ def runCase (id : Str) (inp : Input) : IO Unit := do
   kv "wf.ensure" (bstr (WF.ensure inp))
   kv "wf.dest" (bstr (WF.dest inp))
   kv "wf" (bstr (WF.all inp))
+  kv "wf.core" (bstr (WF.core inp))
+  -- no conflict resolution happened in this run: every import still has the alias (or none) it
+  -- arrived with, so "collides with nothing" can be judged on the final import block
+  kv "quals.stable" (bstr (match a1 with
+    | .ok a => a.reg.imports.all fun p => p.alias = aliasOf a.reg.aliases p.path
+    | .error _ => true))
+  kv "wf.dyn" (bstr (WF.core inp && same && (match a1 with
+    | .ok a => a.importsOK && a.namesOK inp.stub
+    | .error _ => true)))
   kv "dst" (dstPath inp)
   kv "end" id
 
